@@ -185,6 +185,26 @@ pub fn run(tier: Tier) -> i32 {
                 println!("MACHINERY: {} does not build: {e}", u.name);
                 std::process::exit(2)
             });
+            // every third dictionary is built from source files with CR (lexicon) and CRLF
+            // (unk.def) record terminators instead of LF
+            let d = if ui % 3 == 1 && u.dict.kind == crate::refmodel::ConnKind::Matrix && u.mapping.is_none() && u.dict.user.is_none() {
+                let lex = crate::refmodel::RefDict::render_rows(&u.dict.sys).replace('\n', "\r");
+                let unk = u.dict.render_unk_def().replace('\n', "\r\n");
+                st.count("dictionaries_built_from_cr_terminated_sources");
+                match guard(|| vibrato::SystemDictionaryBuilder::from_readers(lex.as_bytes(), u.dict.render_matrix_def().as_bytes(), u.dict.render_char_def().as_bytes(), unk.as_bytes())) {
+                    Ok(Ok(d)) => d,
+                    other => {
+                        st.violation(Finding {
+                            class: "cr-terminated-sources-rejected".into(),
+                            what: format!("lexicon with CR record terminators rejected: {:?} [{}]", other.map(|r| r.map(|_| ()).map_err(|e| e.to_string())), u.name),
+                            replay: json!({"kind": "build", "files": {"lex.csv": lex, "unk.def": unk}}),
+                        });
+                        continue;
+                    }
+                }
+            } else {
+                d
+            };
             let t = make_tokenizer(d, opts).unwrap();
             for s in all_strings(&u.alphabet, max_len) {
                 st.states += 1;
@@ -221,6 +241,6 @@ pub fn run(tier: Tier) -> i32 {
     rep.assumptions = vec!["a corpus whose last sentence lacks EOS is outside the documented format: the reference, like the code, drops the unterminated tokens".into(), "the tokenize binary itself is not run (it needs zstd images); its three write_all calls per token are mirrored".into()];
     rep.finish(
         st,
-        &["malformed_corpora_rejected", "corpora_accepted", "corpora_with_dropped_empty_sentences", "corpora_with_a_token_spelled_EOS", "write_reparse_roundtrips", "tokenizer_outputs_parsed_as_corpus"],
+        &["malformed_corpora_rejected", "corpora_accepted", "corpora_with_dropped_empty_sentences", "corpora_with_a_token_spelled_EOS", "write_reparse_roundtrips", "tokenizer_outputs_parsed_as_corpus", "dictionaries_built_from_cr_terminated_sources"],
     )
 }
